@@ -89,7 +89,13 @@ def verify_function(eng: Engine, c: Contract, prop: str) -> None:
 	keys = list(c.instantiate)
 	combos = list(itertools.product(*[c.instantiate[k] for k in keys])) if keys else [()]
 	for combo in combos:
-		inst = dict(zip(keys, combo))
+		inst: dict[str, Any] = {}
+		for k, v in zip(keys, combo):
+			if ',' in k:  # a tuple of names instantiated together (e.g. an (open, close) pair of a table)
+				for kk, vv in zip(k.split(','), v):
+					inst[kk.strip()] = vv
+			else:
+				inst[k] = v
 		_verify_instance(eng, c, src, prop, inst)
 
 
@@ -116,7 +122,13 @@ def _verify_instance(eng: Engine, c: Contract, src: source.FuncSrc, prop: str, i
 		fn.inputs[str(v.term)] = ty
 	for k, v in c.consts.items():
 		st.env[k] = py_to_val(v)
+	for k, v in inst.items():
+		if k not in ptys and k not in c.ghost_params:
+			st.env[k] = py_to_val(v)  # instantiated ghost constant
 	for g, t in c.ghost_params.items():
+		if g in inst:
+			st.env[g] = py_to_val(inst[g], eng.tenv.parse(t))
+			continue
 		gt = eng.tenv.parse(t)
 		v = eng.fresh(gt, g)  # type: ignore[arg-type]
 		st.env[g] = v
